@@ -37,8 +37,11 @@ class Prop(common.PropertyCheck):
         # samples of more than 2**20 events, not a multiple of it (block-wise implementations)
         for _ in range(self.budget(1, 6)):
             yield {'k': 'big', 'n': (1 << 20) * rng.choice([1, 1, 2]) + rng.randrange(1, 5000), 'cont': rng.choice(['array', 'sample']), 'seed': rng.randrange(1 << 30)}
-        for _ in range(self.budget(12, 120)):
-            yield {'k': 'partial', 'seed': rng.randrange(1 << 30), 'layout': rng.choice(['same', 'swapped', 'dropped', 'reversed'])}
+        orders = [['FL1', 'FL3'], ['FL3', 'FL1'], ['FL2'], ['FL1', 'FL2', 'FL3'], ['FL2', 'FL3', 'FL1'], ['FL3', 'FL1', 'FL2'], ['FL3', 'FL2', 'FL1'],
+                  ['FL1', 'FL3', 'FL2'], ['FL2', 'FL1', 'FL3'], ['FL2', 'FL1']]
+        layouts = ['same', 'swapped', 'dropped', 'reversed', 'lacking']
+        for i in range(self.budget(20, 150)):
+            yield {'k': 'partial', 'seed': rng.randrange(1 << 30), 'layout': layouts[(i // len(orders) + i) % len(layouts)], 'order': orders[i % len(orders)]}
 
     def build(self, case):
         import random
@@ -184,8 +187,9 @@ class Prop(common.PropertyCheck):
         spec = {'version': 'FCS3.0', 'delim': '/', 'datatype': 'I', 'byteord': '1,2,3,4', 'widths': [16] * 5, 'ranges': [1024] * 5,
                 'events': ev, 'names': names, 'pne': {str(i + 1): '0,0' for i in range(5)}}
         beads, _ = samples.load(spec, name='c06_beads.fcs')
-        mef_channels = r.choice([['FL1', 'FL3'], ['FL3', 'FL1'], ['FL2'], ['FL1', 'FL2', 'FL3']])
-        mef_values = [[100. * (j + 1), 700. * (j + 1), 4000. * (j + 1), 20000. * (j + 1)] for j in range(len(mef_channels))]
+        mef_channels = list(case.get('order') or r.choice([['FL1', 'FL3'], ['FL3', 'FL1'], ['FL2'], ['FL1', 'FL2', 'FL3']]))
+        row_of = {'FL1': 1., 'FL2': 2., 'FL3': 3.}
+        mef_values = [[100. * row_of[c], 700. * row_of[c], 4000. * row_of[c], 20000. * row_of[c]] for c in mef_channels]
         labels_of = lambda data, n, **kw: np.searchsorted([50., 190., 600.], np.asarray(data)[:, 0] / (1.0 if True else 1))
         try:
             np.random.seed(1)
@@ -194,6 +198,15 @@ class Prop(common.PropertyCheck):
         except Exception as e:
             return {'err': 'get_transform_fxn:' + type(e).__name__ + ':' + str(e)[:80]}
         tf, curves = res.transform_fxn, res.fitting['std_crv']
+        # reference: every channel calibrated on its own (a one-channel calibration cannot confuse channels)
+        own = {}
+        try:
+            for c, row in zip(mef_channels, mef_values):
+                np.random.seed(1)
+                own[c] = FlowCal.mef.get_transform_fxn(beads, [list(row)], [c], clustering_fxn=labels_of, clustering_channels=['FL1'],
+                                                       selection_fxn=None, full_output=True).fitting['std_crv'][0]
+        except Exception as e:
+            return {'err': 'get_transform_fxn (one channel):' + type(e).__name__ + ':' + str(e)[:80]}
         # the caller goes on using (and changing) its own list of channels and table of values: the calibration must not follow
         own_channels = list(mef_channels)
         if case['seed'] % 2:
@@ -210,6 +223,28 @@ class Prop(common.PropertyCheck):
         elif lay == 'reversed':
             sample = sample[:, ::-1]
         out = {'layout': lay, 'mef_channels': mef_channels, 'problems': []}
+        if lay == 'lacking' and len(mef_channels) >= 2:
+            # the sample lacks one of the calibrated channels: a request for the others is converted with their own curves, or refused
+            gone = mef_channels[case['seed'] % (len(mef_channels) - 1)]
+            keep = [c for c in names if c != gone]
+            sample = sample[:, keep]
+            rest = [c for c in mef_channels if c != gone]
+            for req in [None] + [[c] for c in rest] + [list(reversed(rest))]:
+                try:
+                    got = tf(sample, req)
+                except ValueError:
+                    continue
+                except Exception as e:
+                    out['problems'].append('sample without %s, request %s raised %s' % (gone, req, type(e).__name__))
+                    continue
+                for c in keep:
+                    x = np.asarray(sample[:, c], dtype=float)
+                    if c in rest and (req is None or c in req):
+                        if not np.array_equal(np.asarray(got[:, c]), np.asarray(own[c](x))):
+                            out['problems'].append('sample without %s, request %s: channel %s not converted with its own curve' % (gone, req, c))
+                    elif not np.array_equal(np.asarray(got[:, c], dtype=float), x):
+                        out['problems'].append('sample without %s, request %s: channel %s changed' % (gone, req, c))
+            return out
         for req in [None] + [[c] for c in mef_channels] + [list(reversed(mef_channels))]:
             try:
                 got = tf(sample, req)
@@ -221,6 +256,8 @@ class Prop(common.PropertyCheck):
                     if req is None or c in req:
                         if not np.array_equal(np.asarray(got[:, c]), np.asarray(crv(np.asarray(sample[:, c], dtype=float)))):
                             out['problems'].append('request %s: channel %s not converted with its own curve' % (req, c))
+                        if not np.array_equal(np.asarray(got[:, c]), np.asarray(own[c](np.asarray(sample[:, c], dtype=float)))):
+                            out['problems'].append('request %s: channel %s not converted with the curve of a calibration of %s alone' % (req, c, c))
             except Exception as e:
                 out['problems'].append('request %s raised %s' % (req, type(e).__name__))
         unc = [c for c in sample.channels if c not in mef_channels and c.startswith('FL')]
